@@ -5826,10 +5826,13 @@ func (t *Terminal) Loop() error {
 			case actToggleWrap:
 				t.wrap = !t.wrap
 				t.clearNumLinesCache()
+				// A line that takes one row either way is drawn differently
+				t.forceRerenderList()
 				req(reqList, reqHeader)
 			case actToggleMultiLine:
 				t.multiLine = !t.multiLine
 				t.clearNumLinesCache()
+				t.forceRerenderList()
 				req(reqList)
 			case actToggleHscroll:
 				// Force re-rendering of the list
